@@ -4,7 +4,7 @@
    found the stored child of p if one exists; otherwise not-found exactly when the AddVersion
    is accepted and gone exactly when it is rejected; an unknown client gets "no such client"
    on both (HTTP: 404). *)
-From TSS Require Import AStore Seq proofs.Chain proofs.Inv proofs.Agree proofs.Hist proofs.Cas.
+From TSS Require Import AStore Seq Http proofs.Chain proofs.Inv proofs.Agree proofs.Hist proofs.Cas proofs.UrgencyArith proofs.HttpProps proofs.HttpReach proofs.HttpLib proofs.HttpLib2.
 Open Scope N_scope.
 
 Theorem C08_child_vs_add : forall k cfg h c p d E,
@@ -18,3 +18,29 @@ Theorem C08_child_vs_add : forall k cfg h c p d E,
      (rg = RNotFound /\ by_parent p acc = None /\ exists u, ra = RAdded (e_fresh E) u) \/
      (rg = RGone /\ by_parent p acc = None /\ exists l, ra = RConflict l)).
 Proof. exact child_vs_add. Qed.
+
+(* the same as HTTP clients see it: after ANY HTTP history h (any routes, methods, headers, bodies,
+   clients; refused requests included) a listed client c asks for the child of p (rg) or, from the
+   same state, uploads a version on p (ra):
+   - if a version with parent p was accepted for c, rg is 200 with X-Version-Id, X-Parent-Version-Id,
+     the history-segment content type and exactly that version's payload;
+   - otherwise rg is 404 exactly when the upload is accepted (200 with the new id) and 410 exactly
+     when it is refused (409 naming the latest accepted version).  A client the server has never
+     seen is the case acc = []: 404, and the upload is accepted.
+   `acc` = the versions accepted for c so far, read off the library view of h (C14). *)
+Theorem C08_http_child_vs_add : forall k cfg allow h c p cs E E',
+  cfg_ok cfg -> client_id_header allow (COk c) = inl c -> body_refused cs = false ->
+  let gcv := mkReq MGet (PGetChild (IdOk p)) (COk c) CTAbsent [] in
+  let av := mkReq MPost (PAddVersion (IdOk p)) (COk c) CTHistory cs in
+  horacle_ok (h ++ [(gcv, E')]) -> horacle_ok (h ++ [(av, E)]) ->
+  let acc := accepted c (lib_of allow h) (responses k cfg (lib_of allow h)) in
+  exists rg ra,
+    hresponses k cfg allow (h ++ [(gcv, E')]) = hresponses k cfg allow h ++ [rg] /\
+    hresponses k cfg allow (h ++ [(av, E)]) = hresponses k cfg allow h ++ [ra] /\
+    ((exists v, In v acc /\ v_parent v = p /\
+                rg = mkResp 200 (Some (v_id v)) (Some p) None (Some RTHistory) (v_data v) true) \/
+     (by_parent p acc = None /\ rg = mkResp 404 None None None None [] true /\
+      exists xs, ra = mkResp 200 (Some (e_fresh E)) None xs None [] true) \/
+     (by_parent p acc = None /\ rg = mkResp 410 None None None None [] true /\
+      ra = mkResp 409 None (Some (latest_of acc)) None None [] true)).
+Proof. exact http_child_vs_add. Qed.
